@@ -14,6 +14,10 @@ CHECKS = {
         technique="Coq proof (piece program as interaction tree: only good operations for EVERY read answer/op result; byte invariant for any order of set_len/writes; lifted to the FS model) + trace validation of real runs against the extracted model + write-log oracle",
         text="C01_piece_issues_only_good_ops holds for every answer the environment can give (hence every interleaving, candidate/decoy combination and prior export state), C01_accepted_traces_are_good links validated traces to it, C01_fs_bytes_sound gives 'old byte / zero of extension / torrent byte' for every inode. Each of 260 (2500 thorough) generated runs of the real start() is replayed event by event against the extracted programs, index, work list and FS model, and checked by an independent byte-provenance oracle.",
         ref="DESIGN.md section 5 C01", note="Hypothesis cr (collision-freeness at the touched points) and wf_piece (from the layout, C06) are explicit premises."),
+    "C02": dict(
+        technique="Coq proof (candidate index complete and sound for every hash-map order; de-duplication keeps representatives; exhaustive combination search; available => Success with the segments written) + trace validation + independent availability oracle",
+        text="C02_candidates_complete/sound, C02_witnesses_give_combination, C02_search_exhaustive, C02_available_piece_recovered: at the program level, a piece whose every segment has a readable candidate holding the torrent's bytes succeeds and writes every segment not sourced from its own export file. Tied to the code by replaying 300 (3000) generated runs against the model and by an availability oracle computed from the initial snapshot.",
+        ref="DESIGN.md section 5 C02", note="Statement-level hypotheses: fault-free run, witnesses stay in place; the file-system effect of the emitted operations is the FS model's (validated against real runs)."),
     "C03": dict(
         technique="Coq proof (every mutating op targets an entry's export path or its parent; table paths confined to export/<hex>/Data; open modes from Generated.v) + whole-sandbox snapshot oracle + trace validation",
         text="C03_targets_confined, C03_open_modes (re-extracted flags), C03_resize_ops_on_targets, C03_unnamed_inodes_unchanged and the plain-name clause of the loader; tied to the code by before/after snapshots of the whole sandbox, every open mode in the fs-shim log, scan directories overlapping/containing the export directory, and trace validation.",
@@ -42,6 +46,10 @@ CHECKS = {
         technique="Coq proof (bad path in any position => Fault with no mutating op; no piece program panics; loader total) + child-process runs (bad paths, no/unloadable torrents, degenerate torrents, CLI binary)",
         text="Partial: C16_bad_path_no_effect, C16_piece_never_panics, C16_load_total are theorems of the model; allocation failure is runtime (known finding K2). Bad paths of every kind in every position, runs without loadable torrents, degenerate loadable torrents and the CLI binary are exercised as child processes.",
         ref="DESIGN.md section 5 C16", note="Allocation failure and thread panics at join are runtime."),
+    "C04": dict(
+        technique="Coq proof (export file first for every hash-map order; verified piece => Success with NO mutating operation; verified ranges survive every admissible operation; no truncate flags) + histories of runs with write-log oracle",
+        text="C04_export_file_is_first_candidate, C04_verified_multi/single_piece_not_written, C04_verified_ranges_preserved, C04_never_truncates; tied to the code by histories of 2-6 runs on one tree (changing scan sets, torrent subsets, flags, thread counts; finished export files hard-linked into scan directories), the write log intersected with previously verified ranges, and trace validation of every run.",
+        ref="DESIGN.md section 5 C04", note="'verifies' for the no-rewrite clause = export files of the declared length (exact reading); preservation/monotonicity use the loose reading."),
     "C05": dict(
         technique="Coq proof (labelled transition system of the executor: 15-field invariant, conservation, exactly-once, deadlock freedom, strictly decreasing measure; concrete rebalancing relation proved a permutation / even) + deterministic-scheduler runs of the real executor",
         text="C05_work_conserved, C05_exactly_once, C05_deadlock_free, C05_terminates hold for every thread count and every reachable state, i.e. every interleaving, with no fairness assumption (a measure decreases at every step); C05_balance_* prove the concrete balance a permutation that fills queues evenly. The real executor is driven through seeded schedules by the sync shim (every lock/try_lock/unlock/spawn/join/exit a scheduling point) and with real threads; each run is replayed against the model and checked for completion, exactly-once, mutual exclusion and identical trees.",
@@ -66,6 +74,10 @@ CHECKS = {
         technique="Coq proof (loader model on token trees = specification on abstract values with exact-key look-up) + differential run against Torrent::from_bytes on generated documents",
         text="C10_load_iff_wellformed: a byte string loads iff it is the canonical encoding of a value meeting spec_doc (clauses spelled out in C10_fields_faithful), with every loaded field equal to the value in the input; C10_exact_key: look-ups are by exact key. Tied to torrent.rs by 20k (150k thorough) structured/chaotic documents and a UTF-8 boundary stream, with an independent reference loader as oracle.",
         ref="DESIGN.md section 5 C10"),
+    "C17": dict(
+        technique="Coq proof (sorted+deduplicated torrent list depends only on the set of torrents; candidate lists represent exactly the registered inodes with the export file first for every hash-map order; exhaustive search monotone in candidates) + runs under five presentations of each world",
+        text="C17_distinct_torrents, C17_torrent_list_presentation, C17_candidates_order_independent, C17_export_first_for_every_order, C17_more_candidates_monotone; each generated world is run as generated, permuted, with duplicates, with nested scan directories and with the export directory among the scan directories; guarantees checked on each, trees compared, every run replayed against the model.",
+        ref="DESIGN.md section 5 C17", note="Identical trees are demanded when no content is shared between torrents (otherwise the order of evaluation legitimately matters)."),
 }
 
 PENDING = {}
